@@ -254,6 +254,44 @@ func (s *c11State) checkRead(m *dbModel, what string) bool {
 				return nil
 			}
 		}
+		// buckets reached through their meta (how the wallet opens its buckets:
+		// metas are taken once, FetchBucket is called in every transaction):
+		// all of them in this one transaction, so that handles of different
+		// buckets - also same-named ones under different parents - coexist
+		type mb struct {
+			path string
+			meta mwdb.BucketMeta
+		}
+		var metas []mb
+		for _, path := range m.sortedPaths() {
+			if b := openBucket(tx, path); b != nil {
+				metas = append(metas, mb{path, b.GetBucketMeta()})
+			}
+		}
+		if len(metas) > 1 {
+			// fetch in an order that differs from the walk
+			for i := len(metas) - 1; i >= 0; i-- {
+				b := tx.FetchBucket(metas[i].meta)
+				if b == nil {
+					s.fail("bucket-missing", "%s: FetchBucket(meta of %q) returns nil", what, metas[i].path)
+					ok = false
+					return nil
+				}
+				es, err := b.GetByPrefix(nil)
+				if err != nil {
+					s.fail("read-error", "%s: GetByPrefix via FetchBucket(%s): %v", what, metas[i].path, err)
+					ok = false
+					return nil
+				}
+				got, want := sortedEntries(es), modelEntries(m.kv[metas[i].path], nil)
+				if strings.Join(got, "|") != strings.Join(want, "|") {
+					s.fail("content", "%s: bucket %q fetched by its meta holds %q, model %q", what, metas[i].path, got, want)
+					ok = false
+					return nil
+				}
+			}
+			s.w.Stat("check.fetch_by_meta")
+		}
 		return nil
 	})
 	if err != nil {
@@ -659,7 +697,37 @@ func (s *c11State) readOnlyProbe(t *Tape) {
 			s.fail("bucket-missing", "committed bucket %q not found", path)
 			return nil
 		}
-		switch t.Int(3) {
+		switch t.Int(4) {
+		case 3: // an iterator that ran off its end (or sought beyond it) is positioned again
+			it := b.NewIterator(nil)
+			if t.Bool(50) {
+				for it.Next() {
+				}
+			} else {
+				it.Seek([]byte{0xff, 0xff, 0xff, 0xff, 0xff})
+			}
+			k := c11Key(t)
+			if len(all) > 0 && t.Bool(60) {
+				k = []byte(all[t.Int(len(all))])
+			}
+			var got []string
+			if it.Seek(k) {
+				got = append(got, fmt.Sprintf("%q=%q", it.Key(), it.Value()))
+				for it.Next() {
+					got = append(got, fmt.Sprintf("%q=%q", it.Key(), it.Value()))
+				}
+			}
+			it.Release()
+			var want []string
+			for _, kk := range all {
+				if bytes.Compare([]byte(kk), k) >= 0 {
+					want = append(want, fmt.Sprintf("%q=%q", kk, kv[kk]))
+				}
+			}
+			if strings.Join(got, "|") != strings.Join(want, "|") {
+				s.fail("iteration", "seek %q in %q on an iterator that had reached its end yields %q, want %q", k, path, got, want)
+			}
+			s.w.Stat("check.seek_after_end")
 		case 0: // prefix range
 			pre := c11Key(t)
 			it := b.NewIterator(mwdb.BytesPrefix(pre))
